@@ -1092,7 +1092,16 @@ func (e *c10) upsertTok(i int, enabled bool, cap sdk.Dec) {
 		return
 	}
 	ti.StakeEnabled, ti.StakeCap = enabled, cap
-	err := withCache(e.ctx, func(c sdk.Context) error { return app.TokensKeeper.UpsertTokenInfo(c, *ti) })
+	// alternately the keeper call (in a cache of the harness) and the enactment of the UpsertTokenInfos proposal through the
+	// router, whose own atomicity decides what a refused update leaves behind
+	var err error
+	if e.r.Rng.Intn(2) == 0 {
+		err = withCache(e.ctx, func(c sdk.Context) error { return app.TokensKeeper.UpsertTokenInfo(c, *ti) })
+	} else {
+		err = e.w.Enact(e.ctx, 0, tokenstypes.NewUpsertTokenInfosProposal(ti.Denom, ti.TokenType, ti.FeeRate, ti.FeeEnabled, ti.Supply, ti.SupplyCap, ti.StakeCap, ti.StakeMin, ti.StakeEnabled, ti.Inactive,
+			ti.Symbol, ti.Name, ti.Icon, ti.Decimals, ti.Description, ti.Website, ti.Social, ti.Holders, ti.MintingFee, ti.Owner, ti.OwnerEditDisabled, ti.NftMetadata, ti.NftHash))
+		e.r.Count("upsert-tok:through-the-proposal")
+	}
 	en := 0
 	if enabled {
 		en = 1
